@@ -153,6 +153,11 @@ func (fr *Frame) execInstr(ins ssa.Instruction, pc string, st *State) string {
 			}
 			fr.set(x, x.Type(), vc.loadLoc(st, l))
 			pc = fr.assume(pc, vc.typeAssume(fr.vals[x][0], x.Type(), st))
+			if a, ok := x.X.(*ssa.Alloc); ok && fr.closureCell != nil {
+				if mc, ok := fr.closureCell[a]; ok {
+					fr.closures[x] = mc
+				}
+			}
 			// propagate closure identity through private locals
 		case token.NOT:
 			fr.set(x, x.Type(), not(fr.v1(x.X)))
@@ -196,6 +201,25 @@ func (fr *Frame) execInstr(ins ssa.Instruction, pc string, st *State) string {
 		}
 		pc = fr.runSites(ins, "store", pc, st, nil)
 		vc.storeLoc(st, l, fr.v1(x.Val))
+		// a function literal assigned once to a local variable keeps its identity when read back
+		if a, ok := x.Addr.(*ssa.Alloc); ok {
+			if mc, ok := fr.closures[x.Val]; ok {
+				nStores := 0
+				if refs := a.Referrers(); refs != nil {
+					for _, r := range *refs {
+						if s2, ok := r.(*ssa.Store); ok && s2.Addr == ssa.Value(a) {
+							nStores++
+						}
+					}
+				}
+				if nStores == 1 {
+					if fr.closureCell == nil {
+						fr.closureCell = map[*ssa.Alloc]*ssa.MakeClosure{}
+					}
+					fr.closureCell[a] = mc
+				}
+			}
+		}
 		// remember closures stored into private locals (defer func literal via variable etc.)
 	case *ssa.Phi:
 	case *ssa.Extract:
